@@ -148,6 +148,8 @@ class Sem:
                 return ["{", k, "}", self.trace()]
             if y < 0.7:
                 return ["{", "IF (%s) {" % self.boolean(2), k, "}", self.trace(), "}", self.trace()]
+            if k == "RETURN":      # a bare RETURN ended only by the line break, with a statement right after it
+                return [k, self.trace()]
             return [k]
         if x < 0.6:
             out = ["IF (%s) {" % self.boolean(1)] + self.block(d, in_loop, in_fn) + ["}"]
